@@ -1,6 +1,7 @@
 (* C05 (extension): Jinvp(X, p) is the derivative of Log(Exp(e p) @ X) at e = 0 (SO3, regime 1 of Log), over R. *)
 From Coq Require Import Reals Lra Psatz List Nsatz.
 From Coquelicot Require Import Coquelicot.
+From Interval Require Import Tactic.
 Import ListNotations.
 From PV Require Import Base.Num Base.RTac Model.LieGroup Model.LieExp Model.LieLog Model.LieJac Model.LieTangent
   Proofs.LieGroup Proofs.LieExp Proofs.LieLog Proofs.LieJac Proofs.LieTangent Proofs.LieTangent2 Proofs.LieTangent5 Proofs.LieTangent6.
@@ -49,6 +50,7 @@ Lemma Jl_inv_at_log (eps : R) (v : vec3R) (w : R) : 0 <= eps -> eps < vnorm v ->
         (mscale3 ((1 - atan (vnorm v / w) * w / vnorm v) / (vnorm v * vnorm v)) (mmul3 (skew v) (skew v))).
 Proof.
   intros He Hv Hw Hu Hl. pose proof (vnorm_sq v) as Hs. unfold unitq, qnorm2 in Hu. cbn [qv qw fst snd] in Hu.
+  cbn [add mul NumR] in Hu.
   unfold so3_Jl_inv, so3_Jl_inv_coef. branch_true. revert Hl.
   rewrite SO3_log_is_cf by (cbn [qv qw fst snd]; auto; rewrite Rabs_pos_eq; lra).
   unfold log_cf. cbn [qv qw fst snd]. rewrite vnorm_scale.
@@ -80,15 +82,94 @@ Proof.
   apply (is_derive_ext_loc (fun e => vc i (log_cf (pcurve p (v, w) e)))).
   - apply (filter_imp (fun e => vnorm (vscale e p) <= eps /\
                                 (eps < vnorm (qv (pcurve p (v, w) e)) /\ eps < Rabs (qw (pcurve p (v, w) e))))).
-    + intros e [H1 [H2 H3]]. cbv beta. f_equal. rewrite (exp0_is_model eps _ H1). fold (pcurve p (v, w) e).
-      symmetry. now apply SO3_log_is_cf.
+    + intros e [H1 [H2 H3]]. cbv beta. f_equal. symmetry.
+      transitivity (SO3_log eps (pcurve p (v, w) e)); [|now apply SO3_log_is_cf].
+      unfold pcurve. f_equal. f_equal. apply exp0_is_model. exact H1.
     + apply filter_and; [now apply scale_locally_small | apply pcurve_locally_regime1; cbn [qv qw fst snd]; auto; lra].
-  - pose proof (vnorm_sq v) as Hs. unfold unitq, qnorm2 in Hu. cbn [qv qw fst snd] in Hu.
+  - pose proof (vnorm_sq v) as Hs. unfold unitq, qnorm2 in Hu. cbn [qv qw fst snd] in Hu. cbn [add mul NumR] in Hu.
+    assert (Hpos : 0 < vdot v v) by (rewrite <- Hs; nra). clear Hs Hv Hl.
     unfold pcurve, vnorm. cbn [tsqrt TransR].
     destruct v as [[a b] c], p as [[p1 p2] p3].
-    replace (vdot (F:=R) (a, b, c) (a, b, c)) with (a * a + b * b + c * c) by (lie_unfold; ring).
-    apply log_cf_left_derivative.
-    + revert Hs. lie_unfold. intros. assert (0 < vnorm (F:=R) (a, b, c)) by lra. nra.
-    + lra.
-    + revert Hu. lie_unfold. intros; lra.
+    assert (Hd : vdot (F:=R) (a, b, c) (a, b, c) = a * a + b * b + c * c) by (lie_unfold; ring).
+    rewrite Hd in *. apply log_cf_left_derivative; lra.
+Qed.
+
+(* both hemispheres: q and -q have the same Log in regime 1 *)
+Lemma SO3_mul_qneg (E X : quatR) : SO3_mul E (qneg X) = qneg (SO3_mul E X).
+Proof. unfold qneg. destruct E as [[[e1 e2] e3] e0], X as [[[a b] c] w]. cbn [qv qw fst snd]. lie_unfold. split_pairs; ring. Qed.
+Lemma qneg_invol (X : quatR) : qneg (qneg X) = X.
+Proof. unfold qneg. destruct X as [[[a b] c] w]. cbn [qv qw fst snd]. lie_unfold. split_pairs; ring. Qed.
+Lemma unitq_qneg (X : quatR) : unitq X -> unitq (qneg X).
+Proof. unfold unitq, qneg, qnorm2. destruct X as [[[a b] c] w]. cbn [qv qw fst snd]. lie_unfold. intros H. rewrite <- H. ring. Qed.
+Theorem log_left_derivative_gen (eps : R) (X : quatR) (p : vec3R) (i : nat) : 0 < eps -> unitq X ->
+  eps < vnorm (qv X) -> eps < Rabs (qw X) -> eps < vnorm (SO3_log eps X) ->
+  is_derive (fun e => vc i (SO3_log eps (SO3_mul (so3_exp eps (vscale e p)) X))) 0
+            (vc i (mvmul (so3_Jl_inv eps (SO3_log eps X)) p)).
+Proof.
+  intros He Hu Hv Hw Hl. destruct (Rle_or_lt 0 (qw X)) as [Hp|Hn].
+  - rewrite Rabs_pos_eq in Hw by assumption. now apply log_left_derivative.
+  - rewrite Rabs_left in Hw by assumption.
+    assert (Hv' : eps < vnorm (qv (qneg X))) by (unfold qneg; cbn [qv fst]; now rewrite vnorm_neg).
+    assert (Hw' : eps < qw (qneg X)) by (unfold qneg; cbn [qw snd]; lra).
+    assert (HL : SO3_log eps (qneg X) = SO3_log eps X) by (apply SO3_log_neg; auto; [rewrite Rabs_left|]; lra).
+    rewrite <- HL in Hl |- *.
+    pose proof (log_left_derivative eps (qneg X) p i He (unitq_qneg X Hu) Hv' Hw' Hl) as HD.
+    eapply is_derive_ext_loc; [|exact HD].
+    apply (filter_imp (fun e => vnorm (vscale e p) <= eps /\
+                                (eps < vnorm (qv (pcurve p (qneg X) e)) /\ eps < Rabs (qw (pcurve p (qneg X) e))))).
+    + intros e [H1 [H2 H3]]. cbv beta. f_equal.
+      transitivity (SO3_log eps (pcurve p (qneg X) e)).
+      { unfold pcurve. f_equal. f_equal. apply exp0_is_model. exact H1. }
+      transitivity (SO3_log eps (qneg (pcurve p (qneg X) e))); [symmetry; apply SO3_log_neg; auto; lra|].
+      unfold pcurve. rewrite <- SO3_mul_qneg, qneg_invol. f_equal. f_equal. symmetry. apply exp0_is_model. exact H1.
+    + apply filter_and; [now apply scale_locally_small | apply pcurve_locally_regime1; auto; lra].
+Qed.
+
+(* the hypotheses of log_left_derivative_gen / jinvp_* are satisfiable (float64 eps, a 74-degree rotation) *)
+Example log_hypotheses_satisfiable :
+  let eps := / 4503599627370496 in let X : quatR := ((3 / 5, 0, 0), 4 / 5) in
+  0 < eps /\ unitq X /\ eps < vnorm (qv X) /\ eps < Rabs (qw X) /\
+  eps < vnorm (SO3_log eps X) /\ vnorm (SO3_log eps X) < 2 * PI.
+Proof.
+  intros eps X.
+  assert (H0 : 0 < eps) by (unfold eps; lra).
+  assert (Hu : unitq X) by (unfold unitq, X; lie_unfold; field).
+  assert (Hn : vnorm (qv X) = 3 / 5).
+  { unfold X, vnorm. cbn [qv fst tsqrt TransR]. replace (vdot (F:=R) (3 / 5, 0, 0) (3 / 5, 0, 0)) with ((3 / 5) * (3 / 5)) by (lie_unfold; ring).
+    apply sqrt_square. lra. }
+  assert (Hv : eps < vnorm (qv X)) by (rewrite Hn; unfold eps; lra).
+  assert (Hw : eps < Rabs (qw X)) by (unfold X; cbn [qw snd]; rewrite Rabs_pos_eq; unfold eps; lra).
+  assert (HL : vnorm (SO3_log eps X) = 2 * atan (3 / 4)).
+  { rewrite SO3_log_is_cf by assumption. unfold log_cf. rewrite vnorm_scale, Hn. unfold X. cbn [qw snd].
+    replace (3 / 5 / (4 / 5)) with (3 / 4) by field.
+    rewrite Rabs_pos_eq; [field|]. assert (0 < atan (3 / 4)) by interval. apply Rmult_le_pos; lra. }
+  repeat split; auto; rewrite HL; unfold eps; interval.
+Qed.
+
+(* list-level Jinvp of SO3 in tuple form *)
+Lemma jinvp_SO3_tuple (eps : R) (X : quatR) (p : vec3R) :
+  l_v3 (jinvp eps 0 (q_l X) (v3_l p)) = mvmul (so3_Jl_inv eps (SO3_log eps X)) p.
+Proof.
+  unfold jinvp, log_fwd, Jl_invM, so3_Jl_invM, log_l.
+  replace (l_q (q_l X)) with X by (destruct X as [[[a b] c] w]; reflexivity).
+  replace (l_v3 (v3_l (SO3_log eps X))) with (SO3_log eps X) by (destruct (SO3_log eps X) as [[a b] c]; reflexivity).
+  apply lmv_m3rows_v.
+Qed.
+Theorem jinvp_is_log_derivative_SO3 (eps : R) (X : quatR) (p : vec3R) (i : nat) : 0 < eps -> unitq X ->
+  eps < vnorm (qv X) -> eps < Rabs (qw X) -> eps < vnorm (SO3_log eps X) ->
+  is_derive (fun e => vc i (SO3_log eps (SO3_mul (so3_exp eps (vscale e p)) X))) 0
+            (vc i (l_v3 (jinvp eps 0 (q_l X) (v3_l p)))).
+Proof. intros. rewrite jinvp_SO3_tuple. now apply log_left_derivative_gen. Qed.
+
+Example adj_hypotheses_satisfiable :
+  let eps := / 4503599627370496 in
+  0 <= eps /\ unitq (fst (snd (Sim3_id (F:=R)))) /\ snd (snd (Sim3_id (F:=R))) <> 0 /\
+  eps < vnorm (F:=R) (1, 0, 0) /\ eps < Rabs 1.
+Proof.
+  intros eps. assert (Hn : vnorm (F:=R) (1, 0, 0) = 1).
+  { unfold vnorm. cbn [tsqrt TransR]. replace (vdot (F:=R) (1, 0, 0) (1, 0, 0)) with (1 * 1) by (lie_unfold; ring).
+    apply sqrt_square. lra. }
+  rewrite Hn, Rabs_R1. unfold eps. repeat split; try lra.
+  - unfold unitq. lie_unfold. ring.
+  - lie_unfold. lra.
 Qed.
